@@ -88,6 +88,33 @@ Theorem C17_rewrite_seq_in_trace : forall steps args b b',
 Proof. exact rewrite_seq_in_trace. Qed.
 Print Assumptions C17_rewrite_seq_in_trace.
 
+(* MoveMemrefDims: the IR surgery itself (new constant / new memref.dim in front of the loop or an existing
+   dominating value, every use of the dim redirected, the dim erased) is a rule of the rule set: it preserves
+   the trace in any context of a well-formed program (scope invariant: every dominating definition holds its
+   defining equation) and preserves well-formedness, so it takes part in C17_rewrite_seq_in_trace (rule
+   constructor RMoveDim).  Guarded model: the affine.min case (F22) and replacements that do not dominate the
+   loop are outside (move_dim answers None). *)
+Theorem C17_move_dim_surgery_trace : forall fresh j,
+  rule_sound (fun Sc o => move_dim Sc fresh j o) fresh.
+Proof. exact move_dim_sound. Qed.
+Print Assumptions C17_move_dim_surgery_trace.
+
+Theorem C17_move_dim_surgery_wf : forall fresh j,
+  rule_wf (fun Sc o => move_dim Sc fresh j o) fresh.
+Proof. exact move_dim_wf. Qed.
+Print Assumptions C17_move_dim_surgery_wf.
+
+Example C17_move_dim_surgery_nonvacuous :
+  let b := ([Def 2 (PConst 0%Z); Def 3 (PConst 1%Z); Def 4 (PConst 4%Z);
+             For 5 2 4 3 [Def 6 (PSubview 1 [DDyn 4; DStatic 7%Z]); Def 7 (PDim 6 3);
+                          Def 8 (PDim 1 2); Def 9 (PAlloc [DDyn 7; DDyn 8]); Eff 1 [9; 5]]])%nat in
+  wf_prog [0%nat; 1%nat] b = true /\
+  exists b1 b2, rewrite_seq_in [0%nat; 1%nat] [(RMoveDim 1, [3%nat]); (RMoveDim 1, [4%nat])] b = Some b2 /\
+                rewrite_in [0%nat; 1%nat] (RMoveDim 1) [3%nat] b = Some b1 /\
+                block_eqb b1 b = false /\ block_eqb b2 b1 = false /\ wf_prog [0%nat; 1%nat] b2 = true.
+Proof. split; [reflexivity|]. eexists. eexists. split; [vm_compute; reflexivity|]. split; [vm_compute; reflexivity|]. split; [|split]; reflexivity. Qed.
+Print Assumptions C17_move_dim_surgery_nonvacuous.
+
 (* MoveMemrefDims: outside the affine.min case the replacement has the value of the dim it replaces,
    on every iteration. *)
 Theorem C17_move_dim_value : forall fuel Sin Sout src idx r e,
